@@ -163,6 +163,15 @@ func (x *Exec) modOfContract(con *FnContract, sig *types.Signature, m *modSet) {
 	if x.typePure(sig) {
 		return
 	}
+	if con.HasMod && !con.ModAny && con.External {
+		// explicit frame of an assumed contract: the written arrays are read off the clause
+		if ks, ok := x.modKeysOfContract(con, sig); ok {
+			for _, k := range ks {
+				m.keys[k] = true
+			}
+			return
+		}
+	}
 	keys, all := x.reachable(sig, nil, false)
 	if all {
 		m.all = true
@@ -904,6 +913,10 @@ func (x *Exec) contractHavoc(fr *frame, st, pre *State, con *FnContract, callee 
 	x.checkLoopCovers(fr, locs)
 	for _, l := range locs {
 		base, _ := l.pathKey()
+		if l.everyRef {
+			x.havocKey(st, base)
+			continue
+		}
 		if l.whole {
 			// every leaf under the prefix at this reference
 			for _, k := range sortedKeys(c.heapKeys) {
@@ -1009,6 +1022,16 @@ func (x *Exec) evalLoc(env *Env, e Expr) (locs []*LocV, err error) {
 			l := *loc
 			l.whole = true
 			return []*LocV{&l}, nil
+		case "all":
+			T := x.p.typeByName(exprString(t.Args[0]), env.pkg)
+			if T == nil {
+				env.fail("all(): unknown type %s", exprString(t.Args[0]))
+			}
+			var out []*LocV
+			for _, k := range allKeysOfType(T) {
+				out = append(out, &LocV{Kind: k[0], Key: strings.TrimSuffix(k, ":"), Ref: intLit(0), T: T, whole: true, everyRef: true})
+			}
+			return out, nil
 		}
 	case *EUn:
 		if t.Op == "*" {
